@@ -32,8 +32,9 @@ Definition NOFID : N := 4294967295.
 (* ---- environment: outcome of one file-system call ---- *)
 Record tok := Tok {
   t_fail : N;     (* 0 = succeeds; 1 = returns an error; 2 = nil entry / nil result with nil error;
-                     3 = (Create only) entry but nil File with nil error.  Calls without a nil
-                     variant treat every non-zero value as an error. *)
+                     3 = (Create only) entry but nil File with nil error; 4 = (Create only) nil entry
+                     but a File, nil error.  Calls without a nil variant treat every non-zero value
+                     as an error. *)
   t_dir : bool;   (* a new entry handed over by this call is a directory *)
   t_nq : N        (* Walk: number of qids returned (clipped to the number of names) *)
 }.
@@ -146,9 +147,11 @@ Definition do_attach (s : sess) (fid afid : N) (ts : list tok) : R3 :=
     | inr e => (s, RErr e, [])
     | inl s1 =>
         let t := tokn ts 0 in
-        if fs_err t then (unreserve fid s1, RErr EFs, [CAttach])
-        else let '(e, s2) := fresh (t_dir t) s1 in
-             (g_bind (fst e) (put fid (Some e) None 0 s2), ROk 0, [CAttach])
+        match nn_err t with                    (* EnsureNonNil(ent, err) *)
+        | Some err => (unreserve fid s1, RErr err, [CAttach])
+        | None => let '(e, s2) := fresh (t_dir t) s1 in
+                  (g_bind (fst e) (put fid (Some e) None 0 s2), ROk 0, [CAttach])
+        end
     end
   else
     match get_ref s afid with
@@ -252,7 +255,7 @@ Definition do_create (s : sess) (fid : N) (name : bstr) (mode : N) (ts : list to
       let s1 := g_use e s in
       let t := tokn ts 0 in
       if t_fail t =? 1 then (s1, RErr EFs, [CCreate e])
-      else if t_fail t =? 2 then (s1, RErr ENil, [CCreate e])
+      else if (t_fail t =? 2) || (t_fail t =? 4) then (s1, RErr ENil, [CCreate e])  (* nil entry (with or without a File) *)
       else if t_fail t =? 0 then
         (* the file system created the entry and consumed the parent's handle *)
         let '((e', d'), s2) := fresh (t_dir t) s1 in
